@@ -13,6 +13,7 @@ func init() { register("C06", checkC06) }
 
 func checkC06(c *Ctx) {
 	c.Explanation = "Decides sanitize-before-sink as a property of flows, for all inputs: (O1) at each of the reporter call sites of package tally (Report*/Allocate* in stats.go, scope.go, scope_registry.go) every source of the name argument has passed Sanitizer.Name and every key/value of the tag-map argument has passed Sanitizer.Key/Sanitizer.Value of the scope's sanitizer - a backward all-sources qualifier inference through concatenation, phis, fields (all stores), parameters (all call sites), map keys/values (all updates) and ranges; this covers root prefix, separator, subscope names, tags at every level and the cardinality metrics; (O2) the validity test is inclusive at both range ends and extra characters match by equality; (O3) the sanitizer table wires name/key/value functions to the matching option and Name/Key/Value call their own function on their argument; (O4) the pooled scratch buffer is not used after it is returned to the pool and String() is taken before that; (O5) without options the no-op sanitizer (three identity functions) is installed."
+	c.Explanation += " Added by round 9: (O2 inclusive-ranges:foreign-test) no comparison of the rune with anything outside the allow-list precedes the allow-list tests."
 	c.NotDecided = []string{"idempotence, determinism and rune-count preservation as value statements", "invalid UTF-8 handling (range yields U+FFFD)"}
 	c.Assumptions = append(c.Assumptions, "concatenating sanitized strings yields a sanitized string (per-rune character-class sanitizer; stated in scope.fullyQualifiedName)")
 
